@@ -465,6 +465,10 @@ class PSBaseParser:
             self._parse1 = self._parse_string_2
             return i + 1
 
+        elif c != b"\n":
+            # Not an escape sequence: only the backslash is ignored
+            self._curtoken += c
+
         # default action
         self._parse1 = self._parse_string
         return i + 1
